@@ -53,6 +53,7 @@ def de_rules():
           "Dispatch_Engine_save_function_params(self->m_stack_holder, Type_Conversions_take_saves(t_saves));")
     r.add("R2.t_s", r"\bt_s\.call_depth\b", "t_s->call_depth")
     r.add("R9.stl.j", r"\bt_s\.call_params\.back\(\)\.clear\(\);", "vvec_clear(vvec2_back(&t_s->call_params));")
+    r.add("R9.stl.j2", r"\bt_s\.call_params\.back\(\)\.(empty|size)\(\)", r"vvec_\1(vvec2_back(&t_s->call_params))")
     # save_function_params(Stack_Holder&, std::vector<Boxed_Value>&&): range-for over a vector seen as its length
     r.add("R9.rangefor", r"for \(auto &&param : t_params\)", "for (size_t verif_i = 0; verif_i < t_params; ++verif_i)")
     r.add("R9.stl.k", r"\bt_s\.call_params\.back\(\)\.insert\(t_s\.call_params\.back\(\)\.begin\(\), std::move\(param\)\);",
